@@ -56,6 +56,38 @@ func init() {
 		x.Comment("… and both the SetDueNext(Full) and the removal are unconditional statements of that branch")
 		x.DefOptBool("fullSnapshotAlwaysRequiresFull", alwaysOK, alwaysFound)
 
+		x.Comment("(*Store).fsmSnapshot full branch: the requirement token is read right after SetDueNext(Full) and put into the FSMSnapshot; FSMSnapshot.Persist hands it to the sink")
+		var tokOK, tokFound bool
+		if fd := x.Func("store", "Store", "fsmSnapshot"); fd != nil {
+			ast.Inspect(fd.Body, func(n ast.Node) bool {
+				is, isIf := n.(*ast.IfStmt)
+				if !isIf || x.Src(is.Cond) != "dueNext.IsFull()" {
+					return true
+				}
+				tokFound = true
+				sd := x.Calls(is.Body, "SetDueNext")
+				tk := x.Calls(is.Body, "FullNeededToken")
+				ck := x.Calls(is.Body, "Checkpoint")
+				if len(sd) == 1 && len(tk) == 1 && len(ck) >= 1 && sd[0].Pos() < tk[0].Pos() && tk[0].Pos() < ck[0].Pos() {
+					tokOK = true
+				}
+				return false
+			})
+			if tokOK {
+				tokOK = false
+				ast.Inspect(fd.Body, func(n ast.Node) bool {
+					if kv, ok := n.(*ast.KeyValueExpr); ok && x.Src(kv.Key) == "FullNeededToken" && x.Src(kv.Value) == "fullNeededToken" {
+						tokOK = true
+					}
+					return true
+				})
+			}
+		}
+		if pd := x.Func("store", "FSMSnapshot", "Persist"); pd == nil || len(x.Calls(pd.Body, "SetFullNeededToken")) != 1 {
+			tokOK = false
+		}
+		x.DefOptBool("fullSnapshotCapturesToken", tokOK, tokFound)
+
 		x.Comment("(*Store).fsmRestore: wal-staging is removed after the database swap")
 		var ok2, f2 bool
 		if fd := x.Func("store", "Store", "fsmRestore"); fd != nil {
